@@ -2,7 +2,7 @@
 from .common import *
 from vlib.mir import path_conditions
 from vlib.callgraph import CallGraph
-from vlib.mir import block_fields
+from vlib.mir import block_fields, _places_of_rv
 
 META = dict(
     technique="static analysis: dominance/enforcement/who-may-call/comparison-polarity rules over compiler MIR and the call graph",
@@ -11,7 +11,7 @@ META = dict(
           "(propagating failure, before the iterator is returned) and released only by delete_iter with the iterator's own "
           "root; every InstanceState method taking an entry or iterator handle compares the handle's generation with the "
           "current one before touching the entry map, the iterator table or the trie; every mutating method marks the state "
-          "changed first; deletions write a tombstone and tombstones read back as absent. That an iterator yields exactly the "
+          "changed first; deletions write a tombstone and tombstones read back as absent. When the iterator key is rebuilt, a nibble carried between bytes is read before the byte is overwritten. That an iterator yields exactly the "
           "entries present at creation is history-level and not decided."),
 )
 
@@ -350,6 +350,7 @@ def run(ck):
             ck.ob("TAB", f.path, "tombstone-reads-absent", ok, "the Deleted arm yields None", f.loc())
 
     iterator_step_rules(ck, c)
+    nibble_carry_rules(ck, c)
 
 
 def stale_handle_rules(ck, c):
@@ -464,3 +465,39 @@ def iterator_step_rules(ck, c):
                 o = f.origins(it["rv"]["ops"][1], deep=True)
                 ok = any(a[0] == "bin" and a[1].startswith("Add") for a in o) and ("lit", 1) in o
     ck.ob("DEFUSE", f.path, "resumes-at-next-child", len(pushes) == 1 and ok, "the position saved for the parent is next_child + 1", f.loc(pushes[0][0]) if pushes else f.loc())
+
+
+def nibble_carry_rules(ck, c):
+    """MutStem::extend rebuilds the iterator's key by shifting a run of bytes by one nibble. A value carried from one byte to
+    the next (a local assigned inside the loop and initialised before it) must be taken from the byte as it was BEFORE this
+    iteration overwrote it: a load of `*place` that follows a store to `*place` in the same iteration yields the shifted
+    byte, and the nibble handed on is the wrong one (keys reported by the iterator are not the keys stored)."""
+    f = getfn(ck, "sc", E, LL + "MutStem::extend")
+    if not f:
+        return
+    n = 0
+    for lp in natural_loops(f):
+        stores = [(bi, si, st["lhs"][0]) for bi in sorted(lp) for si, st in enumerate(f.stmts(bi))
+                  if "lhs" in st and [str(x) for x in st["lhs"][1]] == ["*"] and f.locals[st["lhs"][0]] == "&mut u8"]
+        carried = sorted(l for l, ds in f.defs().items() if f.locals[l] == "u8" and any(b in lp for (b, _, _) in ds) and any(b not in lp for (b, _, _) in ds))
+        for x in carried:
+            n += 1
+            bad, seen, work = [], set(), [x]
+            while work:
+                l = work.pop()
+                if l in seen:
+                    continue
+                seen.add(l)
+                for (bi, si, it) in f.defs().get(l, []):
+                    if bi not in lp or si == "t":
+                        continue
+                    for pl in _places_of_rv(it["rv"]):
+                        if [str(q) for q in pl[1]] == ["*"] and f.locals[pl[0]] == "&mut u8":
+                            if any(p2 == pl[0] and ((b2 == bi and s2 < si) or (b2 != bi and f.dominates(b2, bi))) for (b2, s2, p2) in stores):
+                                bad.append(bi)
+                        elif not pl[1]:
+                            work.append(pl[0])
+            ck.ob("DEFUSE", f.path, "carried-nibble-read-before-the-byte-is-overwritten:%s" % f.names().get(x, "_%d" % x), not bad,
+                  "the value handed to the next byte derives from loads that precede every store to the byte in the iteration" if not bad else
+                  "the value handed to the next byte is loaded from the byte AFTER this iteration stored to it: the carried nibble is taken from the shifted byte", f.loc(bad[0]) if bad else f.loc(sorted(lp)[0]))
+    ck.floor("DEFUSE", "loop-carried nibbles in MutStem::extend", n, 1)
